@@ -367,6 +367,8 @@ def _gen_plan(rng, cls, dim, dtype, force=None):
         n_grids = int(rng.integers(1, 4))
     if force == "unnamed":
         n_grids = int(rng.integers(2, 4))
+    if force == "joinnames":
+        n_grids = int(rng.integers(2, 4))
     if cls == "CosseratRodIO":
         n_grids = min(n_grids, 3)
         plan["n_elems"] = int(rng.choice([2, 3, 4, 7, 64, dim]))
@@ -379,6 +381,8 @@ def _gen_plan(rng, cls, dim, dtype, force=None):
         if vec_first:
             nf = max(nf, 2)
         if dupf and gi == 1:
+            nf = max(nf, 1)
+        if force == "joinnames" and gi < 2:
             nf = max(nf, 1)
         fn = _names(rng, nf, taken=taken)
         taken |= set(fn)
@@ -404,6 +408,16 @@ def _gen_plan(rng, cls, dim, dtype, force=None):
             fb["type"] = fa["type"]
         elif dupf and plan["lag"][gb]["N"] == plan["lag"][ga]["N"]:
             plan["lag"][gb]["N"] = [n for n in N_POOL if n != plan["lag"][ga]["N"]][int(rng.integers(5))]
+    if force == "joinnames" and len(plan["lag"]) >= 2:
+        # names whose naive concatenations coincide: grid "<a>" with field "<b>_<c>" and grid "<a>_<b>" with field "<c>"
+        # (also "<a>/<b>"-style joins with other separators would coincide for these): registries keyed by a joined string collide
+        a_, b_, c_ = _names(rng, 3, taken=taken | {"rod", "nodes"})
+        g0, g1 = plan["lag"][0], plan["lag"][1]
+        g0["name"], g1["name"] = a_, f"{a_}_{b_}"
+        g0["fields"][0]["name"] = f"{b_}_{c_}"
+        g1["fields"][0]["name"] = c_
+        g1["fields"][0]["type"] = g0["fields"][0]["type"]
+        g1["N"] = g0["N"]
     if cls == "CosseratRodIO" and (rng.random() < 0.6 or force == "N==dim"):
         # a second grid made of views into the rod's own node arrays
         rows = str(rng.choice(["head", "tail", "skip"] if dim == 2 else ["head", "rev"]))
@@ -974,7 +988,7 @@ def run_shard(sh, rec):
         "EulerianFieldIO": ["unit-axis", "unit-axis", "empty"],
     }[cls]
     if cls == "IO":
-        forced = forced + ["dupnames-same", "dupnames-diff", "unnamed"]
+        forced = forced + ["dupnames-same", "dupnames-diff", "unnamed", "joinnames"]
     for i in range(ncases):
         force = forced[i] if i < len(forced) else None
         if force is None and cls == "IO" and tier != "quick" and i % 10 == 0:
